@@ -311,7 +311,10 @@ func (g *gen) fill(v reflect.Value, depth int, top bool) {
 		m := reflect.MakeMapWithSize(t, n)
 		for i := 0; i < n; i++ {
 			k := reflect.New(t.Key()).Elem()
-			g.fill(k, depth+1, false)
+			// one map in four has an entry under the zero key (omitted on the wire)
+			if !(i == 0 && !fan && g.r.Intn(4) == 0) {
+				g.fill(k, depth+1, false)
+			}
 			if fan {
 				uniqueKey(k, i)
 			}
